@@ -3,6 +3,7 @@
 // Op grammar (one case = ops from a reset op `w.new` / `g.new` / `fc` / `pcr` to the next):
 //
 //	w.new <pl> <off> <cnt> <seed> <prefill>   piece of length pl, writer for [off, off+cnt); prefill = 0/1 per block or "-"
+//	mw.begin / w.sel <i> / w.open <as w.new>     a case with up to three writers (each on its own torrent) whose calls are interleaved
 //	w.write <n>                                writer.Write of the next n stream bytes, from the one re-used caller buffer (overwritten after the call)
 //	w.readfrom <len:e,...|->                   writer.ReadFrom of a scripted reader; e = n|e|f (nil, io.EOF, failure with the bytes)
 //	w.close                                    writer.Close
@@ -15,6 +16,7 @@
 //	h.fetch <offset> <length> <status;cl;len;junk;fin>            tor.webseedH
 //	g.maybe <h|e>                              tor.maybeWebseed (hole choice, 1 MiB cap, reservation, fetch goroutine); the server answers honestly / with 404
 //	pcr <hex>                                  webseed.parseContentRange
+//	url <base hex> <name hex> <comp hex,…|nil|.>   webseed.buildUrl
 //
 // Stream byte i of a writer case is pat(seed, off+i), i.e. the piece's reference content, so a
 // byte stored at a wrong offset differs from the reference there.
@@ -31,6 +33,7 @@ import (
 	"net"
 	"net/http"
 	"net/http/httptest"
+	nurl "net/url"
 	"regexp"
 	"strconv"
 	"strings"
@@ -67,9 +70,55 @@ type fileSpec struct {
 
 func bstr(s string) string { return fmt.Sprintf("%d:%s", len(s), s) }
 
+// naming styles of the generated torrents (selected by g.new's seed: seed/1000): the torrent
+// name and the path components of file i.  Reserved characters, blanks, non-ASCII, nested
+// directories: what must reach the web server as <base>/<name>/<comp>/<comp>… with every component
+// percent-encoded on its own (BEP 19).
+const nStyles = 8
+
+func styleName(k int) string {
+	switch k {
+	case 2:
+		return "my torrent"
+	case 3:
+		return "a#b?c"
+	case 4:
+		return "100%"
+	case 5:
+		return "a+b&c=d"
+	case 7:
+		return "x%41;y, z"
+	}
+	return "t"
+}
+
+func stylePath(k, i int) []string {
+	switch k {
+	case 1:
+		return []string{"sub", "dir", fmt.Sprintf("inner%d.bin", i)}
+	case 2:
+		return []string{"a b", fmt.Sprintf("f%d x", i)}
+	case 3:
+		return []string{fmt.Sprintf("p#%d", i), "q?x"}
+	case 4:
+		return []string{fmt.Sprintf("50%%%d", i), "%41"}
+	case 5:
+		return []string{fmt.Sprintf("x+%d&y", i), fmt.Sprintf("\u00e9%d", i), "\u65e5\u672c"}
+	case 6:
+		return []string{fmt.Sprintf("d%d", i%2), fmt.Sprintf("f%d", i)}
+	case 7:
+		return []string{fmt.Sprintf("%%zz%d", i), "a:b@c$d"}
+	}
+	return []string{fmt.Sprintf("f%d", i)}
+}
+
 // metainfo builds a .torrent; hashOf gives the SHA-1 of piece i (nil or a nil result: zeros — the
 // hash of a piece matters only where the harness completes that piece).
 func metainfo(ps int, total int64, files []fileSpec, hashOf func(i int) []byte) []byte {
+	return metainfoStyle(0, ps, total, files, hashOf)
+}
+
+func metainfoStyle(style, ps int, total int64, files []fileSpec, hashOf func(i int) []byte) []byte {
 	var b bytes.Buffer
 	b.WriteString("d4:infod")
 	if files != nil {
@@ -79,13 +128,17 @@ func metainfo(ps int, total int64, files []fileSpec, hashOf func(i int) []byte) 
 			if f.pad {
 				b.WriteString("4:attr1:p")
 			}
-			fmt.Fprintf(&b, "6:lengthi%de4:pathl%see", f.length, bstr(fmt.Sprintf("f%d", i)))
+			fmt.Fprintf(&b, "6:lengthi%de4:pathl", f.length)
+			for _, c := range stylePath(style, i) {
+				b.WriteString(bstr(c))
+			}
+			b.WriteString("ee")
 		}
 		b.WriteString("e")
 	} else {
 		fmt.Fprintf(&b, "6:lengthi%de", total)
 	}
-	b.WriteString("4:name1:t")
+	b.WriteString("4:name" + bstr(styleName(style)))
 	fmt.Fprintf(&b, "12:piece lengthi%de", ps)
 	np := int((total + int64(ps) - 1) / int64(ps))
 	fmt.Fprintf(&b, "6:pieces%d:", 20*np)
@@ -211,6 +264,7 @@ type state struct {
 	files   []fileSpec
 	srv     *server
 	pads    [][2]int    // absolute ranges of the padding files
+	style   int         // naming style of the torrent
 	snap    []byte      // piece content before the fetch (for blocks already present)
 	legit   map[int]int // absolute torrent position -> byte value the writer may store there (-1: none)
 	fetchLo int
@@ -875,6 +929,7 @@ type reqLog struct {
 	first, last int64
 	rng         string
 	query       string
+	badTarget   string // the request target when it does not name a file of the torrent
 }
 
 type server struct {
@@ -902,15 +957,14 @@ func (sv *server) handle(w http.ResponseWriter, r *http.Request) {
 	sv.mu.Lock()
 	st := sv.st
 	idx := -2
+	badTarget := ""
 	switch {
-	case strings.HasPrefix(r.URL.Path, "/gr/t/f"):
-		idx, _ = strconv.Atoi(r.URL.Path[len("/gr/t/f"):])
-	case r.URL.Path == "/gr/t":
-		idx = 0
 	case r.URL.Path == "/hoff":
 		idx = -1
+	case st != nil:
+		idx, badTarget = st.resolveTarget(r)
 	}
-	rl := reqLog{idx: idx, first: -1, last: -1, rng: r.Header.Get("Range"), query: r.URL.RawQuery}
+	rl := reqLog{idx: idx, first: -1, last: -1, rng: r.Header.Get("Range"), query: r.URL.RawQuery, badTarget: badTarget}
 	if m := rangeRe.FindStringSubmatch(rl.rng); m != nil {
 		rl.first, _ = strconv.ParseInt(m[1], 10, 64)
 		rl.last, _ = strconv.ParseInt(m[2], 10, 64)
@@ -978,6 +1032,51 @@ func (sv *server) handle(w http.ResponseWriter, r *http.Request) {
 	}
 }
 
+// resolveTarget maps the request target AS SENT ON THE WIRE to a file of the torrent: after the
+// web seed's base "/gr/", the target must be the torrent name and the file's path components, each
+// percent-encoded on its own and separated by '/', without query.  Returns the file index, or -2
+// and the offending target.
+func (s *state) resolveTarget(r *http.Request) (int, string) {
+	raw := r.RequestURI
+	if strings.ContainsAny(raw, "?#") || !strings.HasPrefix(raw, "/gr/") {
+		return -2, raw
+	}
+	var comps []string
+	for _, seg := range strings.Split(raw[len("/gr/"):], "/") {
+		c, err := nurl.PathUnescape(seg)
+		if err != nil {
+			return -2, raw
+		}
+		comps = append(comps, c)
+	}
+	if len(comps) == 0 || comps[0] != styleName(s.style) {
+		return -2, raw
+	}
+	if s.files == nil {
+		if len(comps) == 1 {
+			return 0, ""
+		}
+		return -2, raw
+	}
+	key := strings.Join(comps[1:], "\x00")
+	for i := range s.files {
+		if strings.Join(stylePath(s.style, i), "\x00") == key {
+			return i, ""
+		}
+	}
+	return -2, raw
+}
+
+// checkTargets: oracle on the request targets of a fetch
+func (s *state) checkTargets(reqs []reqLog) {
+	for _, r := range reqs {
+		if r.badTarget != "" {
+			s.c.Violate("webseed-url:wrong-target", fmt.Sprintf("requested %q for a file of torrent %q (style %d)", r.badTarget, styleName(s.style), s.style), caseOps())
+			return
+		}
+	}
+}
+
 func (s *state) fileBase(idx int) int {
 	if s.files == nil || idx < 0 {
 		return 0
@@ -1032,7 +1131,8 @@ func (s *state) gNew(ps int, total int64, files []fileSpec, index, seed int, pf 
 		pl0 = int(total - int64(index)*int64(ps))
 	}
 	tmp := &state{seed: seed, pads: pads}
-	t, err := tor.ReadTorrent("", bytes.NewReader(metainfo(ps, total, files, func(i int) []byte {
+	style := seed / 1000 % nStyles // g.new's seed also selects the naming style
+	t, err := tor.ReadTorrent("", bytes.NewReader(metainfoStyle(style, ps, total, files, func(i int) []byte {
 		if i != index {
 			return nil // only the piece under test is ever completed
 		}
@@ -1049,7 +1149,7 @@ func (s *state) gNew(ps int, total int64, files []fileSpec, index, seed int, pf 
 	}
 	srv := s.srv
 	*s = state{c: s.c, kind: "g", t: t, index: uint32(index), ps: ps, pl: pl, seed: seed, total: total,
-		files: files, srv: srv, storeOpen: true, logbuf: &syncBuf{}}
+		files: files, srv: srv, storeOpen: true, logbuf: &syncBuf{}, style: style}
 	t.Log.SetOutput(s.logbuf)
 	t.Log.SetFlags(0)
 	s.pads = pads
@@ -1219,6 +1319,7 @@ func (s *state) gFetch(offset, length int, respsSpec string) string {
 	s.srv.mu.Lock()
 	reqs := s.srv.reqs
 	s.srv.mu.Unlock()
+	s.checkTargets(reqs)
 	// what may legitimately be stored
 	s.legit = map[int]int{}
 	for _, p := range part {
@@ -1427,6 +1528,10 @@ func (s *state) gMaybe(mode string) string {
 	if sum < l {
 		s.c.Violate("hang:maybeWebseed", fmt.Sprintf("events cover %d of %d bytes after 20 s", sum, l), caseOps())
 	}
+	s.srv.mu.Lock()
+	mreqs := s.srv.reqs
+	s.srv.mu.Unlock()
+	s.checkTargets(mreqs)
 	// oracle: every block reserved for the fetch is released by the fetch's events when it ends
 	var rel []int
 	for _, e := range s.events {
@@ -1555,6 +1660,55 @@ func (s *state) hFetch(offset, length int, rs string) string {
 	return fmt.Sprintf("log=%s data=%d drop=%s", lg, sum, drop)
 }
 
+// ---------------------------------------------------------------- buildUrl
+
+// urlOp: webseed.buildUrl(base, name, components).  Oracle (BEP 19): what is appended to the base
+// splits at '/' into exactly the name and the components, each percent-decoding to itself.
+func (s *state) urlOp(baseH, nameH, compsH string) string {
+	base, name := string(vhlib.UnHex(baseH)), string(vhlib.UnHex(nameH))
+	var comps []string
+	switch compsH {
+	case "nil":
+	case ".":
+		comps = []string{}
+	default:
+		for _, h := range strings.Split(compsH, ",") {
+			comps = append(comps, string(vhlib.UnHex(h)))
+		}
+	}
+	var got string
+	pn := vhlib.Recover(func() { got = webseed.VerifBuildUrl(base, name, comps) })
+	if pn != "" {
+		s.c.Violate("panic:buildUrl", pn, caseOps())
+		return "panic"
+	}
+	tag := "url:nil"
+	if comps != nil {
+		tag = fmt.Sprintf("url:%dcomps", len(comps))
+	}
+	if name != "" && len(comps) > 0 {
+		pre := base
+		if !strings.HasSuffix(pre, "/") {
+			pre += "/"
+		}
+		ok := strings.HasPrefix(got, pre)
+		if ok {
+			segs := strings.Split(got[len(pre):], "/")
+			want := append([]string{name}, comps...)
+			ok = len(segs) == len(want)
+			for i := 0; ok && i < len(segs); i++ {
+				u, err := nurl.PathUnescape(segs[i])
+				ok = err == nil && u == want[i] && !strings.ContainsAny(segs[i], "?# ")
+			}
+		}
+		if !ok {
+			s.c.Violate("webseed-url:wrong-target:components", fmt.Sprintf("buildUrl(%q, %q, %q) = %q", base, name, comps, got), caseOps())
+		}
+	}
+	s.c.Count(tag, got, len(comps) > 1)
+	return vhlib.Hex([]byte(got))
+}
+
 // ---------------------------------------------------------------- parseContentRange
 
 func (s *state) pcr(h string) string {
@@ -1609,8 +1763,27 @@ func (s *state) exec(op string) string {
 	}
 	bad := "bad-op"
 	switch f[0] {
-	case "w.new":
-		if len(f) != 6 {
+	case "mw.begin":
+		return "ok"
+	case "w.sel":
+		if len(f) != 2 || !inMulti {
+			return bad
+		}
+		i, ok := atoi(f[1])
+		if !ok || i >= len(slots) {
+			return bad
+		}
+		saved := *s
+		slots[curSlot] = &saved
+		if slots[i] != nil {
+			*s = *slots[i]
+		} else {
+			*s = state{c: s.c, srv: s.srv}
+		}
+		curSlot = i
+		return "ok"
+	case "w.new", "w.open":
+		if len(f) != 6 || (f[0] == "w.open") != inMulti {
 			return bad
 		}
 		pl, a := atoi(f[1])
@@ -1715,6 +1888,11 @@ func (s *state) exec(op string) string {
 			return bad
 		}
 		return s.hFetch(o, l, f[3])
+	case "url":
+		if len(f) != 4 {
+			return bad
+		}
+		return s.urlOp(f[1], f[2], f[3])
 	case "pcr":
 		if len(f) != 2 {
 			return bad
@@ -1724,7 +1902,7 @@ func (s *state) exec(op string) string {
 	return bad
 }
 
-var resetOps = map[string]bool{"w.new": true, "g.new": true, "fc": true, "pcr": true}
+var resetOps = map[string]bool{"w.new": true, "g.new": true, "fc": true, "pcr": true, "mw.begin": true, "url": true}
 
 func main() {
 	config.DefaultUseWebseeds = true
@@ -1741,21 +1919,68 @@ func main() {
 	} else {
 		generate(st)
 	}
-	st.endWriterCase()
+	endCase(st)
 	c.Close()
+}
+
+// A multi-writer case (mw.begin … ): up to three writers, each on its own torrent, selected with
+// `w.sel <i>`; their calls are interleaved call by call.  Writers are independent state machines:
+// nothing a writer does may depend on what another writer instance did in between.
+var slots [3]*state
+var curSlot int
+var inMulti bool
+var slotOps, slotObs [3][]string
+
+// endCase evaluates the per-writer oracle on every writer of the case and, for a multi-writer
+// case, runs each writer's calls again alone and compares what it observed.
+func endCase(s *state) {
+	if !inMulti {
+		s.endWriterCase()
+		return
+	}
+	saved := *s
+	slots[curSlot] = &saved
+	for i := range slots {
+		if slots[i] == nil || slots[i].t == nil {
+			continue
+		}
+		*s = *slots[i]
+		s.endWriterCase()
+		// the same calls on this writer alone
+		solo := &state{c: s.c, srv: s.srv}
+		wasMulti := inMulti
+		for k, op := range slotOps[i] {
+			got := solo.exec(op)
+			if got != slotObs[i][k] {
+				s.c.Violate("writer:interference", fmt.Sprintf("writer %d, call `%s`: `%s` when interleaved with other writers, `%s` when run alone",
+					i, op, slotObs[i][k], got), caseOps())
+				break
+			}
+		}
+		inMulti = wasMulti
+	}
+	inMulti, curSlot = false, 0
+	slots = [3]*state{}
+	slotOps, slotObs = [3][]string{}, [3][]string{}
+	*s = state{c: s.c, srv: s.srv}
 }
 
 // runOp: reset handling, execution, emission.
 func runOp(s *state, op string) {
 	f := strings.Fields(op)
 	if len(f) > 0 && resetOps[f[0]] {
-		s.endWriterCase()
+		endCase(s)
 		s.kind, s.t, s.w = "", nil, nil
 		s.c.NewCase()
 		curOps = nil
+		inMulti = f[0] == "mw.begin"
 	}
 	curOps = append(curOps, op)
 	obs := s.exec(op)
+	if inMulti && len(f) > 0 && f[0] != "mw.begin" && f[0] != "w.sel" {
+		slotOps[curSlot] = append(slotOps[curSlot], op)
+		slotObs[curSlot] = append(slotObs[curSlot], obs)
+	}
 	s.c.Emit(op, obs)
 }
 
